@@ -187,6 +187,71 @@ theorem le_total_real (a b : Geonum ℝ) : (a.le b || b.le a) = true := by
       · exact Or.inr ⟨e.symm, x⟩
     rw [this] at h2; simp at h2
 
+/-- the sort relation over exact reals is the lexicographic order on `(blade, remainder, magnitude)` -/
+theorem le_iff_real (a b : Geonum ℝ) :
+    a.le b = true ↔ a.angle.blade < b.angle.blade ∨ (a.angle.blade = b.angle.blade ∧
+      (a.angle.rem < b.angle.rem ∨ (a.angle.rem = b.angle.rem ∧ a.mag ≤ b.mag))) := by
+  have s1 := cmp_spec (a := a.angle) (b := b.angle) trivial trivial
+  simp only [show ∀ x : ℝ, val (F := ℝ) x = x from fun _ => rfl] at s1
+  obtain ⟨f1, f2, f3, f4⟩ := fcmp_spec (F := ℝ) (x := a.mag) (y := b.mag) trivial trivial
+  simp only [show ∀ x : ℝ, val (F := ℝ) x = x from fun _ => rfl] at f1 f2 f3
+  unfold Geonum.le Geonum.cmp
+  rcases cmp_total (a := a.angle) (b := b.angle) trivial trivial with h | h | h
+  · rw [h]; simp only [bne_iff_ne, ne_eq, Option.some.injEq, reduceCtorEq, not_false_eq_true, true_iff]
+    rcases s1.1.mp h with x | ⟨e, x⟩
+    · exact Or.inl x
+    · exact Or.inr ⟨e, Or.inl x⟩
+  · rw [h]
+    obtain ⟨eb, er⟩ := s1.2.1.mp h
+    rcases lt_trichotomy a.mag b.mag with r | r | r
+    · rw [f1.mpr r]; simp only [Option.getD_some, bne_iff_ne, ne_eq, Option.some.injEq, reduceCtorEq, not_false_eq_true, true_iff]
+      exact Or.inr ⟨eb, Or.inr ⟨er, le_of_lt r⟩⟩
+    · rw [f2.mpr r]; simp only [Option.getD_some, bne_iff_ne, ne_eq, Option.some.injEq, reduceCtorEq, not_false_eq_true, true_iff]
+      exact Or.inr ⟨eb, Or.inr ⟨er, le_of_eq r⟩⟩
+    · rw [f3.mpr r]; simp only [Option.getD_some, bne_self_eq_false, Bool.false_eq_true, false_iff]
+      rintro (x | ⟨_, x | ⟨_, x⟩⟩)
+      · omega
+      · linarith
+      · linarith
+  · rw [h]; simp only [bne_self_eq_false, Bool.false_eq_true, false_iff]
+    rcases s1.2.2.1.mp h with x | ⟨e, x⟩
+    · rintro (y | ⟨e2, _⟩) <;> omega
+    · rintro (y | ⟨_, y | ⟨y, _⟩⟩)
+      · omega
+      · linarith
+      · linarith
+
+theorem le_trans_real (a b c : Geonum ℝ) (hab : a.le b = true) (hbc : b.le c = true) : a.le c = true := by
+  rw [le_iff_real] at *
+  rcases hab with x | ⟨e, x⟩ <;> rcases hbc with y | ⟨f, y⟩
+  · left; omega
+  · left; omega
+  · left; omega
+  · right; refine ⟨e.trans f, ?_⟩
+    rcases x with x | ⟨ex, mx⟩ <;> rcases y with y | ⟨ey, my⟩
+    · left; linarith
+    · left; linarith
+    · left; linarith
+    · right; exact ⟨ex.trans ey, le_trans mx my⟩
+
+/-- (E) **sorting**: over exact reals `sort` never panics and returns a permutation of its input in non-decreasing order
+    (`Vec::sort` is modelled by the stable `List.mergeSort` on the model `cmp`; the order laws above are exactly the contract std's
+    sort requires of `Ord`) -/
+theorem sort_real (l : List (Geonum ℝ)) :
+    ∃ s, Geonum.sort l = some s ∧ s.Perm l ∧ s.Pairwise (fun a b => a.cmp b ≠ some .gt) := by
+  refine ⟨l.mergeSort Geonum.le, ?_, List.mergeSort_perm l _, ?_⟩
+  · unfold Geonum.sort
+    have : l.all (fun a => (a.angle.cmp a.angle).isSome) = true := by
+      rw [List.all_eq_true]; intro a _
+      rw [cmp_refl (a := a.angle) trivial]; rfl
+    rw [if_pos this]
+  · have hp := List.pairwise_mergeSort (le := Geonum.le)
+      (fun a b c hab hbc => le_trans_real a b c hab hbc) (fun a b => le_total_real a b) l
+    refine hp.imp ?_
+    intro a b h
+    unfold Geonum.le at h
+    simpa using h
+
 end E
 
 example {F : Type} [FloatSpec F] : Fin (⟨zero, 3⟩ : Angle F).rem := fin_zero
